@@ -82,6 +82,11 @@ for variant, cls in (('inverse', 'KFACInverseLayer'), ('eigen', 'KFACEigenLayer'
     INV3 = [(lbl, over_layers(body) if lbl != 'preconditioned_gradient_shape' else
              over_layers('implies(l._grad is not None, len(awaited(l._grad).shape) == 2)'))
             for lbl, body in MUT_COMMON + MUT_VARIANT[variant]] + [('own_state_stable', STABLE)]
+    PRE = [('this_layer', 'layer is flayer(self, len(self._layers) - 1 - i)'),
+           ('this_layer_configured', 'layer_config_ok(layer)'),
+           ('this_layer_gradients', MUT_COMMON[0][1].replace('l.', 'layer.'))]
+    HINT3 = [('this_layer', 'layer is flayer(self, len(self._layers) - 1 - i)'), ('this_layer_consumed', 'layer._grad is None'),
+             ('earlier_ones_stay_consumed', 'all(flayer(self, m)._grad is None for m in range(len(self._layers) - i, len(self._layers)))')]
     KEPT_SO = ('second_order_identity_kept_off_schedule', f'implies(not ({INV_STEP}), all(' + so_identity_kept(L_, variant) + ' for m in self._layers))')
     REFR = ('refreshed_on_schedule', f'implies({INV_STEP}, all(' + refreshed(L_, 'self._layers[m][0]', 'D0') + ' for m in self._layers))')
     KEPT_F = ('factors_kept_off_schedule', f'implies(not {FAC_STEP}, all(' + factors_identity_kept(L_) + ' for m in self._layers))')
@@ -111,7 +116,7 @@ for variant, cls in (('inverse', 'KFACInverseLayer'), ('eigen', 'KFACEigenLayer'
             ('no_reduction_left_pending', 'nothing_pending(self._tdc)'),
             ('communicator_invariant', 'tdc_inv(self._tdc)'),
         ],
-        loops={f'iter:reversed(list(self._layers.values()))#{i}': dict(index='i', invariants=(INV if i < 3 else INV3) + extra) for i, extra in enumerate([
+        loops={f'iter:reversed(list(self._layers.values()))#{i}': dict(index='i', hints=(HINT3 if i == 3 else []), pre_hints=PRE, invariants=(INV if i < 3 else INV3) + extra) for i, extra in enumerate([
             [],
             [('refreshed_so_far', 'all(' + refreshed('flayer(self, m)', 'fname(self, m)', 'D0') +
               ' for m in range(len(self._layers) - i, len(self._layers)))'), KEPT_F],
